@@ -462,6 +462,17 @@ def run_auth(case):
                 cmd(b'EHLO again.example')
         if position == 'in-transaction':
             cmd(b'MAIL FROM:<s@x.example>')
+        if position in ('after-cancelled-login', 'after-garbled-login'):
+            # an earlier exchange in this session was abandoned half way: nothing of it may be left for the next one
+            r = cmd(b'AUTH LOGIN')
+            if r is None or r[0] != '334':
+                return [], False        # LOGIN not on offer here (e.g. refused without TLS): position not reachable
+            r = cmd(b64(b'alice').encode())
+            if r is None or r[0] != '334':
+                return [], False
+            r = cmd(b'*' if position == 'after-cancelled-login' else b'!!!')
+            if r is None or not r[0].startswith('5'):
+                return [('C08:abandoned-auth-not-refused', '%s: %r' % (desc, r))], True
         ncb = len([t for t in h.trace if t[0] == 'AUTH'])
         # the AUTH exchange under test
         enc = lambda s: s.encode('utf-8')
@@ -727,7 +738,10 @@ def run_edge_auth_before_tls(case):
 
 
 CREDS = [('user', 'pass', ''), ('user', 'pass', 'admin'), ('üser@exämple.com', 'pässwörd€', ''), ('u s e r', 'p q', 'zïd'),
-         ('u' * 70, 's' * 70, '')]
+         ('u' * 70, 's' * 70, ''),
+         # white space at the edges belongs to the credentials
+         # (blanks only: the comparison helper of the SASL library refuses control characters)
+         (' dave', 'correct horse ', ' admin'), ('carol ', ' pw ', '')]
 
 
 def auth_table():
@@ -742,7 +756,8 @@ def auth_table():
                     continue
                 if mech == 'CRAM-MD5' and shape.startswith('badutf8'):
                     continue
-                for position in ('normal', 'before-ehlo', 'after-refused-ehlo', 'after-success', 'after-success-reehlo', 'in-transaction'):
+                for position in ('normal', 'before-ehlo', 'after-refused-ehlo', 'after-success', 'after-success-reehlo', 'in-transaction',
+                                 'after-cancelled-login', 'after-garbled-login'):
                     if position != 'normal' and shape not in ('initial', 'challenge'):
                         continue
                     for k, creds in enumerate(CREDS if (position == 'normal' and shape in ('initial', 'challenge')) else CREDS[:1]):
@@ -798,7 +813,8 @@ def replay(case):
         if fam == 'auth':
             if case['tls'] not in ('none', 'starttls', 'immediate') or case['mech'] not in ('PLAIN', 'LOGIN', 'CRAM-MD5', 'UNKNOWN') \
                     or case['shape'] not in ('initial', 'challenge', 'cancel', 'badb64', 'noisyb64', 'equals', 'noarg', 'badutf8', 'badutf8-challenge') \
-                    or case['position'] not in ('normal', 'before-ehlo', 'after-refused-ehlo', 'after-success', 'after-success-reehlo', 'in-transaction'):
+                    or case['position'] not in ('normal', 'before-ehlo', 'after-refused-ehlo', 'after-success', 'after-success-reehlo', 'in-transaction',
+                                             'after-cancelled-login', 'after-garbled-login'):
                 return None            # not a case this check generates: cannot be replayed
             case = dict(case, creds=[str(x) for x in case['creds']][:3])
             if len(case['creds']) != 3:
